@@ -58,6 +58,7 @@ type ConvCase struct {
 	Cfg    Cfg
 	Script Script
 	Phases [][]Raw // phase 0 plaintext (or the only phase under implicit TLS); later phases after STARTTLS
+	Extra  []*Sx   // expectations stated by the generator (focus, expect-codes, ...), passed through to the oracle
 }
 
 type logWriter struct {
@@ -146,9 +147,13 @@ func RunConv(c ConvCase) *Sx {
 	for _, p := range phases {
 		ph.Add(RawsSx(p))
 	}
-	return L(A("conv"), c.Cfg.Sx(), c.Script.Sx(), L(A("phases"), ph),
+	res := L(A("conv"), c.Cfg.Sx(), c.Script.Sx(), L(A("phases"), ph),
 		L(A("obs"), L(A("events"), evs), L(A("deliveries"), dl),
 			L(A("panics"), Num(int64(lg.count("panic serving")))), L(A("waited"), B(okWait))))
+	if len(c.Extra) > 0 {
+		res.Add(L(append([]*Sx{A("expect")}, c.Extra...)...))
+	}
+	return res
 }
 
 func cloneScript(s Script) Script {
